@@ -13,6 +13,12 @@ inductive ExtModeNode
   | terminal (e : Exts)
   | panic
 
+/-- the orientation test of `try_extend_node`: leaving through `dir`, a link arrives on the facing side unless flipped -/
+def consistentDir (dir incoming : Dir) (flip : Bool) : Bool :=
+  match dir, incoming, flip with
+  | .L, .R, false => true | .L, .L, true => true | .R, .L, false => true | .R, .R, true => true
+  | _, _, _ => false
+
 /-- everything `try_extend_node` computes that does not depend on availability -/
 inductive StaticN
   | panic
@@ -39,10 +45,7 @@ def staticNode (g : G D) (st : Bool) (join : D → D → Bool) (node : Nat) (dir
           match g.nodes[nextId]? with
           | none => .panic
           | some nn =>
-            let consistent := nn.seq.length == g.K ||
-              (match dir, incoming, flip with
-               | .L, .R, false => true | .L, .L, true => true | .R, .L, false => true | .R, .R, true => true
-               | _, _, _ => false)
+            let consistent := nn.seq.length == g.K || consistentDir dir incoming flip
             if !consistent then .panic
             else .cand nextId incoming ((!st && isPalindrome nextKmer) || !(join nd.data nn.data)) (nn.exts.numExtDir incoming)
                   (nd.exts.singleDir dir)
@@ -73,6 +76,12 @@ def extendNode (g : G D) (st : Bool) (join : D → D → Bool) (avail : List Nat
 termination_by avail.length
 decreasing_by exact rm_length_lt h
 
+/-- payload fold of `build_node`: the reduction over the payloads of the nodes on a path -/
+def payloadFold (g : G D) (reduce : D → D → D) (acc : Option D) (p : Nat × Dir) : Option D :=
+  match acc, (g.nodes[p.1]?).map (·.data) with
+  | some d, some x => some (reduce d x)
+  | _, _ => none
+
 /-- `build_node(seed)` -/
 def buildNode (g : G D) (st : Bool) (join : D → D → Bool) (reduce : D → D → D) (avail : List Nat) (seed : Nat) :
     Option (Node D × List (Nat × Dir) × List Nat) :=
@@ -85,11 +94,8 @@ def buildNode (g : G D) (st : Bool) (join : D → D → Bool) (reduce : D → D 
       match extendNode g st join (rm a2 seed) seed .R with
       | none => none
       | some (rpath, rext, a3) =>
-        let dataOf := fun (i : Nat) => (g.nodes[i]?).map (·.data)
-        let fold := fun (acc : Option D) (p : Nat × Dir) => match acc, dataOf p.1 with
-          | some d, some x => some (reduce d x) | _, _ => none
         let nodePath := (lpath.map fun p => (p.1, p.2.flip)).reverse ++ [(seed, Dir.L)] ++ rpath
-        match rpath.foldl fold (lpath.foldl fold (some sn.data)), sequenceOfPath g nodePath with
+        match rpath.foldl (payloadFold g reduce) (lpath.foldl (payloadFold g reduce) (some sn.data)), sequenceOfPath g nodePath with
         | some dat, some sq =>
           let leftExtend := match lpath.getLast? with
             | none => lext | some (_, .L) => lext.complement | some (_, .R) => lext
